@@ -1,6 +1,7 @@
 U = "core:internal/protocol"
 
 PROP = {
+    "file_prefixes": ["c04_", "c01_"],
     "technique": "property-based testing (rapid) + native fuzzing: differential against an independent reference decoder over a scripted chunked reader; round-trip through the real writers",
     "level_text": "Generated-input exploration: harness-encoded frames in every legal varint width and boundary length, real-writer frames with every padding value forced, over-limit/empty rejects and arbitrary byte strings are decoded by the real readers through an adversarially chunked non-ByteReader and compared with an independent reference decoder (value, exact bytes consumed, largest single read, allocation). Thorough adds coverage-guided native fuzzing of the same differential. Exploration only, not a proof.",
     "level_note": "Trusts the reference decoder written from PROTOCOL.md/RFC 9000 and that streams never return (0, nil) from Read (io.Reader contract; quic-go streams block instead).",
@@ -11,6 +12,8 @@ PROP = {
         {"name": "TestVerifC04_RealWriters", "unit": U, "quick": 5000, "thorough": 40000, "shards_thorough": 4},
         {"name": "TestVerifC04_Reject", "unit": U, "quick": 5000, "thorough": 30000, "shards_thorough": 4},
         {"name": "TestVerifC04_ArbitraryBytes", "unit": U, "quick": 20000, "thorough": 200000, "shards_thorough": 8},
+        # end to end on a real QUIC stream: frame type / lengths in any width, payload right behind the frame
+        {"name": "TestVerifC04_E2EFrameOnRealStream", "unit": "core:server", "quick": 40, "thorough": 600, "shards_thorough": 8, "timeout_quick": 600},
         {"name": "FuzzVerifC04_Decode", "unit": U, "kind": "fuzz", "fuzz_secs": 90},
     ],
 }
